@@ -286,7 +286,7 @@ pub fn suite_c10() -> Suite {
         head_len: 40,
         op_len: 0,
         max_ops: 0,
-        quick_cases: 2_000_000,
+        quick_cases: 8_000_000,
         thorough_cases: 100_000_000,
         run: run_c10,
         direct: Some(direct_c10),
@@ -481,7 +481,7 @@ pub fn suite_c15() -> Suite {
         head_len: 40,
         op_len: 0,
         max_ops: 0,
-        quick_cases: 2_000_000,
+        quick_cases: 8_000_000,
         thorough_cases: 100_000_000,
         run: run_c15,
         direct: Some(direct_c15),
